@@ -84,6 +84,7 @@ def one_case(ctx: Ctx, stream: str, i: int) -> None:
         if st != 'ok':
             ctx.fail(stream, i, f'inverse-raises:{label}:{st}', str(inv)[:150], cfg)
             continue
+        ctx.in_domain(stream, i, enc.op(inv), cfg)       # the form `.I` builds lies in the domain of the closed theorems
         # form
         if rep[0] == 'ok':
             d = first_diff(rep[1], enc.op(inv))
